@@ -15,7 +15,7 @@ package main
 // by constructor (newGraphRunError, fmt.Errorf with one %w / without %w, errors.New, ErrExceedMaxSteps,
 // context.Canceled, ctx.Err(), context.Cause(ctx)).  Any other statement in front of tm.submit, any other
 // shape of a guard or of an error expression: not recognised (neutral file, tie unavailable).
-// Output: coq/Gen/LoopErrors.v; agreement with the model: coq/Proofs/GenAgreeLoop.v.
+// Output: coq/Gen/C13LoopErrors.v; agreement with the model: coq/Proofs/GenAgreeC13Loop.v.
 
 import (
 	"fmt"
@@ -28,14 +28,14 @@ import (
 	"strings"
 )
 
-const c13LoopNeutral = "(* Gen/LoopErrors.v — translator tie UNAVAILABLE: tools/go2v (extractor \"looperrs\") did not recognise the shape\n" +
+const c13LoopNeutral = "(* Gen/C13LoopErrors.v — translator tie UNAVAILABLE: tools/go2v (extractor \"looperrs\") did not recognise the shape\n" +
 	"   of the head of runner.run's main loop; the guards the model assumes are re-exported. *)\n" +
 	"From Eino Require Import Base.Util Model.Errors Model.ErrorsLoopLib.\n\n" +
 	"Definition loop_guards : list lguard := model_loop_guards.\n"
 
 func init() {
 	register("looperrs", c13ExtractLoop)
-	registerFallback("looperrs", "LoopErrors.v", c13LoopNeutral)
+	registerFallback("looperrs", "C13LoopErrors.v", c13LoopNeutral)
 }
 
 type c13Loop struct {
@@ -469,9 +469,9 @@ func c13ExtractLoop(repo string) (string, string, error) {
 		return "", "", fmt.Errorf("tm.submit is not a statement of the loop body")
 	}
 	var b strings.Builder
-	b.WriteString("(* Gen/LoopErrors.v — GENERATED by tools/go2v (extractor \"looperrs\") from compose/graph_run.go\n")
+	b.WriteString("(* Gen/C13LoopErrors.v — GENERATED by tools/go2v (extractor \"looperrs\") from compose/graph_run.go\n")
 	b.WriteString("   (runner.run: the guards at the head of the main loop, in source order, with the errors they build). Do not edit. *)\n")
 	b.WriteString("From Eino Require Import Base.Util Model.Errors Model.ErrorsLoopLib.\n\n")
 	b.WriteString("Definition loop_guards : list lguard :=\n  [ " + strings.Join(guards, ";\n    ") + " ].\n")
-	return "LoopErrors.v", b.String(), nil
+	return "C13LoopErrors.v", b.String(), nil
 }
